@@ -176,9 +176,9 @@ def pat(v):
     return ("exact", v)
 
 
-def check(ctx, form, sig, variant="plain", sheets=None, sample=False):
+def check(ctx, form, sig, variant="plain", sheets=None, sample=False, fmt="dict"):
     sheets = sheets or form.to_sheets()
-    o = drive.convert_sheets(sheets, args=form.args)
+    o = drive.convert_sheets(sheets, args=form.args, fmt=fmt)
     if not o.ok:
         ctx.ctr("rejected")
         if not o.exc_is_pyxform:
@@ -253,7 +253,18 @@ def run_shard(ctx):
         if i % 3 == 1:
             sheets, done, _ = spelling.apply(sheets, rng, n=(1, 4), only=["header_alias", "header_case", "col_perm"])
             variant = "aliases:" + "+".join(sorted({d.split(":")[0] for d in done}))
-        check(ctx, form, common.feature_sig(form), variant, sheets, sample=(i < 2))
+        fmt = "dict"
+        if i % 5 == 4:
+            # a spreadsheet with a header-less column (an author's scratch column) somewhere among the logic columns: cells must stay under their headers
+            h, rows = sheets["survey"]
+            at = rng.randint(1, len(h))
+            note = lambda: rng.choice([None, None, "author note", "yes", "1"])  # noqa: E731
+            sheets = dict(sheets)
+            sheets["survey"] = (h[:at] + [None] + h[at:], [r[:at] + [note()] + r[at:] for r in rows])
+            fmt = rng.choice(["xlsx", "xls"])
+            variant += f"+headerless-column:{fmt}"
+            ctx.ctr("headerless_column_cases")
+        check(ctx, form, common.feature_sig(form), variant, sheets, sample=(i < 2), fmt=fmt)
 
 
 def replay(w):
